@@ -27,6 +27,39 @@ pub mod synth {
     pub struct Tariff {}
 
     #[quantity]
+    #[unit(Flat_pack, "fp")]
+    /// single-unit quantity whose unit identifier has two words
+    pub struct Stack {}
+
+    #[quantity]
+    #[unit(Centibar, "c6", 1000)]
+    #[unit(Pieze, "p19", 1000)]
+    #[unit(Inch_Mercury, "im22", 3386.39)]
+    #[unit(Atmosphere, "a16", 101325)]
+    #[unit(Bar, "b8", 100000)]
+    #[unit(Technical_Atmosphere, "ta15", 98066.5)]
+    #[unit(Foot_Water, "fw23", 2988.98)]
+    #[unit(Newton_per_Square_Millimeter, "npsm21", 1000000)]
+    #[unit(Megapascal, "m7", MEGA, 1000000)]
+    #[unit(Gigapascal, "g20", GIGA, 1000000000)]
+    #[unit(Millimeter_Mercury, "mm14", 133.322)]
+    #[ref_unit(Pascal, "p0", NONE)]
+    #[unit(Pound_per_Square_Inch, "ppsi17", 6894.757)]
+    #[unit(Decibar, "d9", 10000)]
+    #[unit(Newton_per_Square_Meter, "npsm1", 1)]
+    #[unit(Micropascal, "m10", MICRO, 0.000001)]
+    #[unit(Barye, "b12", 0.1)]
+    #[unit(Millibar, "m4", 100)]
+    #[unit(Kip_per_Square_Inch, "kpsi18", 6894757)]
+    #[unit(Hectopascal, "h3", HECTO, 100)]
+    #[unit(Joule_per_Cubic_Meter, "jpcm2", 1)]
+    #[unit(Torr, "t13", 133.322)]
+    #[unit(Kilopascal, "k5", KILO, 1000)]
+    #[unit(Millipascal, "m11", MILLI, 0.001)]
+    /// 24 units declared out of scale order, several sharing a scale (also with the reference unit)
+    pub struct Pressure {}
+
+    #[quantity]
     #[ref_unit(Grain, "gr", NONE, "reference unit")]
     #[unit(Milligrain, "mgr", MILLI, 0.001)]
     #[unit(Scruple, "sc", 20)]
@@ -41,3 +74,31 @@ DOSE = QtySpec("crate", "synth", "Dose", "Grain", [U("Grain", "gr", "NONE", 1), 
 PILE = QtySpec("crate", "synth", "Pile", None, [U("Pebble", "pb", None, None)])
 TRI = QtySpec("crate", "synth", "Tri", None, [U("Gamma_Ray", "ga", None, None), U("Alpha", "al", None, None), U("Beta", "be", None, None)])
 TARIFF = QtySpec("crate", "synth", "Tariff", None, [U("Cent_per_Minute", "c/min", None, None), U("apple", "ap", None, None), U("Cent_Total", "ct", None, None), U("Banana", "bn", None, None)])
+STACK = QtySpec("crate", "synth", "Stack", None, [U("Flat_pack", "fp", None, None)])
+PRESSURE = QtySpec("crate", "synth", "Pressure", "Pascal", [
+    U("Pascal", "p0", "NONE", F("1")),
+    U("Centibar", "c6", None, F("1000")),
+    U("Pieze", "p19", None, F("1000")),
+    U("Inch_Mercury", "im22", None, F("338639/100")),
+    U("Atmosphere", "a16", None, F("101325")),
+    U("Bar", "b8", None, F("100000")),
+    U("Technical_Atmosphere", "ta15", None, F("196133/2")),
+    U("Foot_Water", "fw23", None, F("149449/50")),
+    U("Newton_per_Square_Millimeter", "npsm21", None, F("1000000")),
+    U("Megapascal", "m7", "MEGA", F("1000000")),
+    U("Gigapascal", "g20", "GIGA", F("1000000000")),
+    U("Millimeter_Mercury", "mm14", None, F("66661/500")),
+    U("Pound_per_Square_Inch", "ppsi17", None, F("6894757/1000")),
+    U("Decibar", "d9", None, F("10000")),
+    U("Newton_per_Square_Meter", "npsm1", None, F("1")),
+    U("Micropascal", "m10", "MICRO", F("1/1000000")),
+    U("Barye", "b12", None, F("1/10")),
+    U("Millibar", "m4", None, F("100")),
+    U("Kip_per_Square_Inch", "kpsi18", None, F("6894757")),
+    U("Hectopascal", "h3", "HECTO", F("100")),
+    U("Joule_per_Cubic_Meter", "jpcm2", None, F("1")),
+    U("Torr", "t13", None, F("66661/500")),
+    U("Kilopascal", "k5", "KILO", F("1000")),
+    U("Millipascal", "m11", "MILLI", F("1/1000")),
+])
+PRESSURE.decl = ['Centibar', 'Pieze', 'Inch_Mercury', 'Atmosphere', 'Bar', 'Technical_Atmosphere', 'Foot_Water', 'Newton_per_Square_Millimeter', 'Megapascal', 'Gigapascal', 'Millimeter_Mercury', 'Pascal', 'Pound_per_Square_Inch', 'Decibar', 'Newton_per_Square_Meter', 'Micropascal', 'Barye', 'Millibar', 'Kip_per_Square_Inch', 'Hectopascal', 'Joule_per_Cubic_Meter', 'Torr', 'Kilopascal', 'Millipascal']
